@@ -318,9 +318,10 @@ def _ctx(j):
 
 
 ACCS = ("Sum", "DSum", "Mean", "MeanSumSeq", "VarianceMeanCount", "VarianceMeanCountCorr",
-        "Vectorize", "Count", "Histogram", "SplitIntoBins", "Graph")
+        "Vectorize", "Count", "Histogram", "SplitIntoBins", "Graph", "SplitIntoBins2")
 
-ACC_CLASS = {"MeanSumSeq": "Mean", "VarianceMeanCountCorr": "VarianceMeanCount"}
+ACC_CLASS = {"MeanSumSeq": "Mean", "VarianceMeanCountCorr": "VarianceMeanCount",
+             "SplitIntoBins2": "SplitIntoBins"}
 
 
 def make_acc(tok):
@@ -345,6 +346,10 @@ def make_acc(tok):
     if tok == "SplitIntoBins":
         return lena.structures.SplitIntoBins(lena.math.Sum(), lena.variables.Variable("x", _ident),
                                              [0, 2, 100])
+    if tok == "SplitIntoBins2":
+        # a per-cell analysis with two results: one compute() yields two (histogram, context) values
+        return lena.structures.SplitIntoBins(lena.core.Split([lena.math.Sum(), lena.flow.Count()]),
+                                             lena.variables.Variable("x", _ident), [0, 2, 100])
     if tok == "Graph":
         return lena.structures.Graph()
     raise ValueError(tok)
